@@ -129,12 +129,15 @@ section
 variable (H : Data → Digest)
 
 /-! ### `SendPacket` -/
+
+/-- the chain whose client must exist for a send: the relay chain if one is named -/
+def sendTarget (p : Packet) : Chain := if p.relay != "" then p.relay else p.dst
+
 def sendPacket (s : Core) (p : Packet) : Core × Res :=
   if !packetBasic p then (s, .err .invalidPacket)
   else if p.src != s.name then (s, .err .invalidPacket)
   else
-    let target := if p.relay != "" then p.relay else p.dst
-    match s.clients target with
+    match s.clients (sendTarget p) with
     | none => (s, .err .clientNotFound)
     | some _ =>
       let next := s.ps.nextSend p.pair
@@ -146,36 +149,47 @@ def sendPacket (s : Core) (p : Packet) : Core × Res :=
         (s.emit (pktEvent "send_packet" p), .ok)
 
 /-! ### `RecvPacket` -/
+
+/-- the chain a received packet must be proven from -/
+def recvProver (s : Core) (p : Packet) : Chain :=
+  if p.dst == s.name && p.relay != "" then p.relay else p.src
+
+/-- everything `RecvPacket` does after the commitment proof has been verified -/
+def recvWrites (s : Core) (p : Packet) : Core × Res :=
+  let s := s.setReceipt p.key
+  let s := s.emit (pktEvent "recv_packet" p)
+  if p.relay == s.name then
+    if !authenticate s p.src p.dst p.port then (s, .err .unauthorized)
+    else match s.clients p.dst with
+      | none => (s, .err .clientNotFound)
+      | some _ =>
+        let s := s.setCommit p.key (H p.data)
+        (s.emit (pktEvent "send_packet" p), .ok)
+  else (s, .ok)
+
 def recvPacket (s : Core) (p : Packet) (π : Proof) (h : Nat) : Core × Res :=
   match validatePacket s p with
   | .err e => (s, .err e)
   | .ok =>
     if s.ps.receipt p.key then (s, .err .invalidPacket)
     else
-      let fromChain := if p.dst == s.name && p.relay != "" then p.relay else p.src
-      match s.clients fromChain with
+      match s.clients (recvProver s p) with
       | none => (s, .err .clientNotFound)
       | some cl =>
-        if !verify cl fromChain h π (.commit p.key) (.digest (H p.data)) then (s, .err .verify)
-        else
-          let s := s.setReceipt p.key
-          let s := s.emit (pktEvent "recv_packet" p)
-          if p.relay == s.name then
-            if !authenticate s p.src p.dst p.port then (s, .err .unauthorized)
-            else match s.clients p.dst with
-              | none => (s, .err .clientNotFound)
-              | some _ =>
-                let s := s.setCommit p.key (H p.data)
-                (s.emit (pktEvent "send_packet" p), .ok)
-          else (s, .ok)
+        if !verify cl (recvProver s p) h π (.commit p.key) (.digest (H p.data)) then (s, .err .verify)
+        else recvWrites H s p
 
 /-! ### `WriteAcknowledgement` -/
+
+/-- the chain whose client must exist for an acknowledgement to be written -/
+def writeAckTarget (s : Core) (p : Packet) : Chain :=
+  if p.relay != "" && p.dst == s.name then p.relay else p.src
+
 def writeAck (s : Core) (p : Packet) (ack : Data) : Core × Res :=
   if ack.isEmpty then (s, .err .invalidAck)
   else if (s.ps.ack p.key).isSome then (s, .err .ackExists)
   else
-    let target := if p.relay != "" && p.dst == s.name then p.relay else p.src
-    match s.clients target with
+    match s.clients (writeAckTarget s p) with
     | none => (s, .err .clientNotFound)
     | some _ =>
       let s := s.setAck p.key (H ack)
@@ -184,32 +198,42 @@ def writeAck (s : Core) (p : Packet) (ack : Data) : Core × Res :=
       (s.emit (pktEvent "write_acknowledgement" p ack), .ok)
 
 /-! ### `AcknowledgePacket` -/
+
+/-- the chain an acknowledgement must be proven from -/
+def ackProver (s : Core) (p : Packet) : Chain :=
+  if p.src == s.name && p.relay != "" then p.relay else p.dst
+
+/-- everything `AcknowledgePacket` does after the acknowledgement proof has been verified -/
+def ackWrites (s : Core) (p : Packet) (ack : Data) : Core × Res :=
+  let s := s.delCommit p.key
+  let s := s.setMaxAck p.pair p.seq
+  let s := s.emit (pktEvent "acknowledge_packet" p ack)
+  if p.relay == s.name then
+    match s.clients p.src with
+    | none => (s, .err .clientNotFound)
+    | some _ =>
+      let s := s.setAck p.key (H ack)
+      (s.emit (pktEvent "write_acknowledgement" p ack), .ok)
+  else (s, .ok)
+
 def acknowledgePacket (s : Core) (p : Packet) (ack : Data) (π : Proof) (h : Nat) : Core × Res :=
   match validatePacket s p with
   | .err e => (s, .err e)
   | .ok =>
     if s.ps.commit p.key != some (H p.data) then (s, .err .invalidPacket)
     else
-      let fromChain := if p.src == s.name && p.relay != "" then p.relay else p.dst
-      match s.clients fromChain with
+      match s.clients (ackProver s p) with
       | none => (s, .err .clientNotFound)
       | some cl =>
-        if !verify cl fromChain h π (.ack p.key) (.digest (H ack)) then (s, .err .verify)
-        else
-          let s := s.delCommit p.key
-          let s := s.setMaxAck p.pair p.seq
-          let s := s.emit (pktEvent "acknowledge_packet" p ack)
-          if p.relay == s.name then
-            match s.clients p.src with
-            | none => (s, .err .clientNotFound)
-            | some _ =>
-              let s := s.setAck p.key (H ack)
-              (s.emit (pktEvent "write_acknowledgement" p ack), .ok)
-          else (s, .ok)
+        if !verify cl (ackProver s p) h π (.ack p.key) (.digest (H ack)) then (s, .err .verify)
+        else ackWrites H s p ack
 
 end
 
 /-! ### `CleanPacket` (on the source; the source field of the message is ignored) -/
+
+def cleanTarget (cp : CleanPacket) : Chain := if cp.relay != "" then cp.relay else cp.dst
+
 def cleanPacket (s : Core) (cp : CleanPacket) : Core × Res :=
   if cp.seq == 0 then (s, .err .invalidPacket)
   else
@@ -217,8 +241,7 @@ def cleanPacket (s : Core) (cp : CleanPacket) : Core × Res :=
     match validateClean s cp' with
     | .err e => (s, .err e)
     | .ok =>
-      let target := if cp.relay != "" then cp.relay else cp.dst
-      match s.clients target with
+      match s.clients (cleanTarget cp) with
       | none => (s, .err .clientNotFound)
       | some _ =>
         let s := s.setClean cp'.pair cp.seq
@@ -227,25 +250,30 @@ def cleanPacket (s : Core) (cp : CleanPacket) : Core × Res :=
         (s.emit (cleanEvent "send_clean_packet" cp'), .ok)
 
 /-! ### `RecvCleanPacket` -/
+
+def cleanProver (s : Core) (cp : CleanPacket) : Chain :=
+  if cp.dst == s.name && cp.relay != "" then cp.relay else cp.src
+
+def recvCleanWrites (s : Core) (cp : CleanPacket) : Core × Res :=
+  let s := cleanAcks s cp.src cp.dst cp.seq
+  let s := cleanReceipts s cp.src cp.dst cp.seq
+  let s := s.setClean cp.pair cp.seq
+  let s := s.emit (cleanEvent "recv_clean_packet" cp)
+  if cp.relay == s.name then
+    match s.clients cp.dst with
+    | none => (s, .err .clientNotFound)
+    | some _ => (s.emit (cleanEvent "send_clean_packet" cp), .ok)
+  else (s, .ok)
+
 def recvCleanPacket (s : Core) (cp : CleanPacket) (π : Proof) (h : Nat) : Core × Res :=
   match validateClean s cp with
   | .err e => (s, .err e)
   | .ok =>
-    let fromChain := if cp.dst == s.name && cp.relay != "" then cp.relay else cp.src
-    match s.clients fromChain with
+    match s.clients (cleanProver s cp) with
     | none => (s, .err .clientNotFound)
     | some cl =>
-      if !verify cl fromChain h π (.clean cp.pair) (.seq cp.seq) then (s, .err .verify)
-      else
-        let s := cleanAcks s cp.src cp.dst cp.seq
-        let s := cleanReceipts s cp.src cp.dst cp.seq
-        let s := s.setClean cp.pair cp.seq
-        let s := s.emit (cleanEvent "recv_clean_packet" cp)
-        if cp.relay == s.name then
-          match s.clients cp.dst with
-          | none => (s, .err .clientNotFound)
-          | some _ => (s.emit (cleanEvent "send_clean_packet" cp), .ok)
-        else (s, .ok)
+      if !verify cl (cleanProver s cp) h π (.clean cp.pair) (.seq cp.seq) then (s, .err .verify)
+      else recvCleanWrites s cp
 
 end Core
 end Tibc
